@@ -83,7 +83,7 @@ CLAIMED["C04"] = dict(
 )
 
 CLAIMED["C15"] = dict(
-    technique="type-lattice evaluation of the validator priority search vs pickletools' decoded kinds; constant folding of admitted integer ranges vs struct formats; writer/reader shape agreement of every encoder with the pickletools argument descriptor; interpretation of the UNICODE text encoder and of the inherited Opcode.encode_body over one representative per reader character class / per fixed-width descriptor; who-may-construct rule for classes with a defective encoder",
+    technique="interpretation (sa/objeval) of ConstantOpcode.new(v).encode() and of Cls(arg).encode() for every registered opcode class over boundary representatives of the property's value classes / of each pickletools descriptor, the bytes read back by pickletools.genops (the reader's specification); type-lattice evaluation of the validator priority search; constant folding of admitted integer ranges vs struct formats; interpretation of the UNICODE text encoder and of the inherited Opcode.encode_body over one representative per reader character class / per fixed-width descriptor; who-may-construct rule for classes with a defective encoder",
     level="Decides two agreement rules: for every input kind every constant class that can win ConstantOpcode.new decodes (per pickletools) to that kind, within a range its format can hold; and every registered opcode class writes the shape its descriptor reads back, or refuses. Genuine findings on this tree are recorded (bool is captured by the integer classes; five legacy encoders disagree with their descriptors). Per-value escaping and boundary correctness (raw_unicode_escape on non-ASCII, float round trip, nested containers beyond their leaves) is value-level and not decided.",
     note="Trusted: pickletools descriptors and stack_after kinds; the encoder pattern table in sa/props/c15.py (an unrecognised encoder ends ANALYSIS-ERROR).",
 )
